@@ -12,6 +12,8 @@ import (
 	"strings"
 	"time"
 
+	"golang.org/x/tools/go/ssa"
+
 	"verif/sa/core"
 	"verif/sa/rules"
 )
@@ -130,6 +132,87 @@ func main() {
 					fmt.Printf("%s.%s  %s %s [%s] %v\n", tn, fn, prog.InstrPos(w.Instr), core.FuncName(w.Fn), w.Kind, d)
 				}
 			}
+		}
+	case "guards":
+		// sa guards <relpkg> <recv|-> <name> : list calls/stores/returns with their dominating atoms
+		prog, err := core.Load("/repo", nil, "")
+		if err != nil {
+			fmt.Fprintln(os.Stderr, err)
+			os.Exit(2)
+		}
+		var roots []*ssa.Function
+		if len(os.Args) == 3 || os.Args[3] == "*" {
+			sp := prog.Pkg(os.Args[2])
+			for _, f := range prog.Funcs {
+				if f.Parent() == nil && f.Pkg == sp {
+					roots = append(roots, f)
+				}
+			}
+		} else {
+			recv := os.Args[3]
+			if recv == "-" {
+				recv = ""
+			}
+			fn := prog.Func(os.Args[2], recv, os.Args[4])
+			if fn == nil {
+				fmt.Fprintln(os.Stderr, "not found")
+				os.Exit(2)
+			}
+			roots = append(roots, fn)
+		}
+		pv := prog.Prov()
+		var all []*ssa.Function
+		for _, r := range roots {
+			all = append(all, core.FuncsIn(r)...)
+		}
+		for _, f := range all {
+			fmt.Println("##", core.FuncName(f))
+			core.Instrs(f, func(in ssa.Instruction) {
+				label := ""
+				switch x := in.(type) {
+				case ssa.CallInstruction:
+					cc := x.Common()
+					if cc.IsInvoke() {
+						label = "call:" + cc.Method.Name()
+					} else if cl := cc.StaticCallee(); cl != nil {
+						n := cl.String()
+						if strings.Contains(n, "zap.") || strings.Contains(n, "logutil") || strings.Contains(n, "metrics") || strings.Contains(n, "prometheus") || strings.HasPrefix(n, "fmt.") {
+							return
+						}
+						label = "call:" + cl.Name()
+					} else if _, ok := cc.Value.(*ssa.Builtin); ok {
+						return
+					} else {
+						label = "call:dyn"
+					}
+				case *ssa.Store:
+					if fa, ok := x.Addr.(*ssa.FieldAddr); ok {
+						f := core.FieldOfAddr(fa)
+						label = "store:" + strings.TrimPrefix(fa.X.Type().String(), "*") + "." + f.Name() + " = " + strings.Join(pv.Desc(x.Val), "|")
+					} else {
+						return
+					}
+				case *ssa.Return:
+					var parts []string
+					for _, r := range x.Results {
+						parts = append(parts, strings.Join(pv.Desc(r), "|"))
+					}
+					label = "ret:" + strings.Join(parts, ",")
+				case *ssa.MakeClosure:
+					label = "closure:" + x.Fn.Name()
+				case *ssa.Go:
+					label = "go"
+				default:
+					return
+				}
+				if !core.Feasible(in) {
+					return
+				}
+				fmt.Printf("%s  %s\n", prog.InstrPos(in), label)
+				for _, a := range prog.DominatingAtoms(f, in) {
+					fmt.Printf("        %s\n", a)
+				}
+			})
 		}
 	case "dump":
 		// sa dump <relpkg> <recv|-> <name> : print SSA of a function and its closures
